@@ -38,14 +38,14 @@ type Program struct {
 	soleImpl      map[*types.TypeName]*types.Named // unexported interface -> its only implementer (nil: none or several)
 	seamField     map[string]*seam                 // see seams.go
 	seamGlobal    map[string]*seam
-	afterFuncLike map[*ssa.Function]int // wrappers of time.AfterFunc -> index of the callback parameter
+	afterFuncLike map[*ssa.Function]int            // wrappers of time.AfterFunc -> index of the callback parameter
 	ifaceConv     map[*types.TypeName][]types.Type // load.go onlyConverted
 	ifaceOpen     map[*types.TypeName]bool
 	ctorCalls     map[*ssa.Function][][]ssa.Value // seams.go: arguments of every direct call, by callee
 	fnAsValue     map[*ssa.Function]bool
-	unsetHooks    map[string]bool       // hooks.go
+	unsetHooks    map[string]bool // hooks.go
 	hookIndex     *Index
-	constGlobals  map[*ssa.Global]bool  // effectively constant package-level variables (globals.go)
+	constGlobals  map[*ssa.Global]bool // effectively constant package-level variables (globals.go)
 }
 
 func loadProgram(repo string, goarch string) (*Program, error) {
